@@ -550,6 +550,14 @@ mod timers;
 #[cfg(test)]
 mod test;
 
+// Verification hook: scheduler shim supplied by the verification
+// harness (never compiled in normal builds)
+#[cfg(uazu_stakker_verif)]
+#[doc(hidden)]
+pub mod verif_std {
+    include!(env!("UAZU_STAKKER_VERIF_STD"));
+}
+
 // Time-handling selection
 #[cfg(not(target_family = "wasm"))]
 #[doc(hidden)]
